@@ -318,6 +318,18 @@ class CallMixin:
 
     # ------------------------------------------------------------ builtins
     def call_builtin(self, name, args, kws, st, node=None):
+        if name.startswith("real.") and getattr(self, "b_" + name.replace(".", "_"), None) is None:
+            recv = args[0]
+            conc = lambda v: isinstance(v, (str, int, float, bool, tuple)) or v is None
+            if isinstance(recv, RealObj) and all(conc(a) for a in args[1:]) and \
+                    all(conc(v) for v in kws.values()):
+                import re as _re
+                if isinstance(recv.obj, _re.Pattern):
+                    r = getattr(recv.obj, name[5:])(*args[1:], **kws)
+                    if isinstance(r, list):
+                        return [(st, self.wrap_str_result(r, st))]
+                    return [(st, self.wrap_real(r))]
+            raise OutOfReach("method %s of a real object on symbolic arguments" % name)
         if name.startswith("x."):
             r = self.extra_builtins[name[2:]](self, args, kws, st)
             return r if isinstance(r, list) else [(st, r)]
@@ -371,6 +383,20 @@ class CallMixin:
         (s_, eq), = self.compare(ast.Eq(), a.elem(j), b.elem(j), st)
         return simp(z_and(self.num_cmp(ast.Eq(), a.n, b.n),
                           z_implies(z_and(j >= 0, self.num_cmp(ast.Lt(), j, a.n)), eq)))
+
+    def b_spec_fmt_value(self, args, kws, st, node):
+        from .strings import FmtResult
+        if not isinstance(args[0], FmtResult):
+            raise OutOfReach("fmt_value of %r" % type(args[0]).__name__)
+        return args[0].mapping[args[1]]
+
+    def b_spec_fmt_template(self, args, kws, st, node):
+        from .strings import FmtResult
+        if not isinstance(args[0], FmtResult):
+            if isinstance(args[0], str):
+                return args[0]
+            raise OutOfReach("fmt_template of %r" % type(args[0]).__name__)
+        return args[0].template
 
     def b_spec_intstr(self, args, kws, st, node):
         v = args[0]
@@ -743,6 +769,8 @@ class CallMixin:
                     t is object)
             if hasattr(v, "pyvc_isinstance"):
                 return v.pyvc_isinstance(t)
+            if isinstance(v, PyList):
+                return t in (list, object)
             if isinstance(v, (bool, int, float, str, tuple)):
                 return isinstance(v, t)
             if is_z3(v):
